@@ -785,8 +785,24 @@ def case_strategy(family):
 
 def plan(tier):
     if tier == "quick":
-        return [{"family": "direct", "i": i} for i in range(5)] + [{"family": "flo", "i": 5 + i} for i in range(3)]
-    return [{"family": "direct", "i": i} for i in range(11)] + [{"family": "flo", "i": 11 + i} for i in range(5)]
+        return [{"family": "direct", "i": i} for i in range(5)] + [{"family": "flo", "i": 5 + i} for i in range(3)] + \
+            [{"family": "files", "i": 40}]
+    return [{"family": "direct", "i": i} for i in range(11)] + [{"family": "flo", "i": 11 + i} for i in range(5)] + \
+        [{"family": "files", "i": 40 + i} for i in range(2)]
+
+
+def check_files(case):
+    """The header clause over every log file a logger ever creates - first runs, restarts, a new process on an existing
+    prefix (reuse), rotated copies: the configurations, histories and file model of C23 (vp.checks.c23_log_rotation), of
+    whose verdicts only the ones about headers are C22's."""
+    from vp.checks import c23_log_rotation as R
+    fails, r = R.check_case(case)
+    fails = [(s, w) for s, w in fails if s.startswith("header-")]
+    newproc = any(t[0] == "newproc" for t in case["ticks"])
+    classes = ["files", "files:keep=%d" % case["keep"], "files:reuse=%s" % case["reuse"]]
+    if newproc:
+        classes.append("files:new-process-on-existing-prefix")
+    return fails, bool(newproc or case["keep"]), classes
 
 
 def work(shard, seed, tier):
@@ -799,6 +815,16 @@ def work(shard, seed, tier):
     else:
         n = 3000 if family == "direct" else 1500
         budget = 360
+
+    if family == "files":
+        from vp.checks import c23_log_rotation as R
+
+        def execute_files(case):
+            fails, nontrivial, classes = check_files(case)
+            return Outcome(fails, nontrivial=nontrivial, classes=classes, key=case, sample=None)
+        campaign(acc, R.case_strategy(), execute_files, 120 if tier == "quick" else 2500, seed * 1000 + shard["i"],
+                 budget=Budget(budget), to_case=lambda c: dict(c, files=True))
+        return acc
 
     def execute(case):
         fails, nontrivial, classes = check_case(case)
@@ -834,5 +860,7 @@ def _shrink_failures(acc, seconds=2.0, max_sigs=3):
 
 
 def replay(case):
+    if case.get("files"):
+        return check_files(case)[0]
     fails, _, _ = check_case(case)
     return fails
